@@ -45,7 +45,7 @@ CUSTOM_FUNCS = ["my.func", "ns.f", "a.b.c", "odata.concat", "custom.length"]
 
 class Opts:
     def __init__(self, **kw):
-        self.kw_idents = False        # identifiers that start with a keyword
+        self.kw_idents = True         # identifiers that start with a keyword
         self.namespaces = True
         self.lambdas = True
         self.named = True
